@@ -390,7 +390,8 @@ def run_check(pid, tier, args):
                 new.append((sig, lst))
         exit_code = 0
         nviol = 0
-        os.makedirs(os.path.join(VERIF, 'replays'), exist_ok=True)
+        replay_dir = args.replay_dir or os.path.join(VERIF, 'replays')
+        os.makedirs(replay_dir, exist_ok=True)
         for sig, lst in new[:args.max_report]:
             rec, v = min(lst, key=lambda rv: len(rv[0].get('tape') or ()))
             case, tape = rec['case'], rec['tape']
@@ -400,7 +401,7 @@ def run_check(pid, tier, args):
                 if not minimised:
                     case, tape = rec['case'], rec['tape']
             safe = ''.join(c if c.isalnum() else '_' for c in sig)[:60]
-            path = os.path.join(VERIF, 'replays', f'{check.ID}-{rec["seed"]}-{safe}.json')
+            path = os.path.join(replay_dir, f'{check.ID}-{rec["seed"]}-{safe}.json')
             with open(path, 'w', encoding='utf-8') as f:
                 json.dump({'property': check.ID, 'rule': v['rule'], 'sig': sig, 'msg': v['msg'],
                            'seed': rec['seed'], 'tier': tier, 'minimised': minimised,
@@ -427,7 +428,10 @@ def run_check(pid, tier, args):
         if harness_errors:
             problems.append(f'{len(harness_errors)} runs with harness errors')
         wall_used = _perf() - t0
-        path = write_evidence(check, tier, base, records, wall_used, known_seen, nviol, problems)
+        if args.no_evidence:
+            path = '(not written)'
+        else:
+            path = write_evidence(check, tier, base, records, wall_used, known_seen, nviol, problems)
         n = len(records)
         print(f'{check.ID} {tier}: {n} runs in {wall_used:.1f}s, '
               f'{len(by_sig)} violation signature(s) ({len(known_seen)} known), evidence {path}')
@@ -458,6 +462,9 @@ def main(argv=None):
     ap.add_argument('--min-seconds', type=float, default=90)
     ap.add_argument('--max-report', type=int, default=4)
     ap.add_argument('--dump-digests')
+    ap.add_argument('--no-evidence', action='store_true',
+                    help='do not rewrite evidence/<id>.json (runs against scratch or mutated trees)')
+    ap.add_argument('--replay-dir', help='where replay files are written (default /verif/replays)')
     ap.add_argument('--ignore-known', action='store_true',
                     help='treat known findings as new (to regenerate their replay files)')
     args = ap.parse_args(argv)
